@@ -132,7 +132,15 @@ func checkC10(c *Check) {
 		fr := NewResolver(p)
 		allInstrs(fn, func(in ssa.Instruction) {
 			st, ok := in.(*ssa.Store)
-			if !ok || typeName(st.Val.Type()) != "*auditevent.EventWriter" {
+			if !ok {
+				return
+			}
+			// the writer itself, or the writer held in a field of interface type
+			sv := st.Val
+			if mi, isMI := sv.(*ssa.MakeInterface); isMI {
+				sv = mi.X
+			}
+			if typeName(sv.Type()) != "*auditevent.EventWriter" {
 				return
 			}
 			fa, ok := st.Addr.(*ssa.FieldAddr)
